@@ -9,8 +9,12 @@ import xml.etree.ElementTree as ET
 
 base = json.load(open("/root/.vp/BASELINE.json"))
 out = tempfile.mktemp(suffix=".xml")
+REPO = os.environ.get("GOTRANX_REPO", "/repo")
+ENV = dict(os.environ)
+if REPO != "/repo":
+    ENV["PYTHONPATH"] = f"{REPO}/src"
 subprocess.run(["/venv/bin/python", "-m", "pytest", "-ra", "-q", "-p", "no:cacheprovider", "--timeout=900",
-                "--continue-on-collection-errors", f"--junitxml={out}"] + sys.argv[1:], cwd="/repo",
+                "--continue-on-collection-errors", f"--junitxml={out}"] + sys.argv[1:], cwd=REPO, env=ENV,
                stdout=subprocess.DEVNULL, stderr=subprocess.DEVNULL)
 passed = set()
 for tc in ET.parse(out).getroot().iter("testcase"):
